@@ -353,6 +353,47 @@ def t2_containment(ctx: Ctx):
                     bad = f'{_show_fmt(a)} (digits from 2^{a.fields["exp"]}) is reported contained in {_show_fmt(b)} (digits from 2^{b.fields["exp"]}) although {_show_val(miss[0])} is not a member of the latter'
     ctx.check(bad is None and accepted > 0, FMT, fn, 'AbstractFormat._is_contained_in', f'a <= b only if every member of a is a member of b ({cnt} pairs, {accepted} accepted)',
               bad or 'no pair accepted')
+    # ... with the precision axis: a format of `prec` significant digits whose smallest digit is 2**exp (exp may be
+    # unbounded below: a multi-precision float context) and whose bounds may be infinite.  Members are taken among the
+    # multiples of 1/4 up to 16.
+    from fractions import Fraction as Fr
+    INF = float('inf')
+
+    def digits(v: Fr) -> int:
+        n = abs(v.numerator)
+        return (n >> ((n & -n).bit_length() - 1)).bit_length()
+
+    def holds(f: Obj, v: Fr) -> bool:
+        if v == 0:
+            return True
+        e, p = f.fields['exp'], f.fields['prec']
+        if isinstance(e, int) and (v / Fr(2) ** e).denominator != 1:
+            return False
+        if isinstance(p, int) and digits(v) > p:
+            return False
+        return f.fields['neg_bound'] <= v <= f.fields['pos_bound']
+    cand = [Fr(k, 4) for k in range(-64, 65)]
+    pf = [Obj('AbstractFormat', prec=p, exp=e, pos_bound=b, neg_bound=-b, **dict(zip(FLAGS, (True,) * 4)))
+          for p in (INF, 1, 2, 3, 5) for e in (-INF, -2, 0, 1) for b in (INF, 16, 6, 2) if not (p == INF and e == -INF and False)]
+    it2 = Interp({}, methods=meths, overrides={'RealFloat': lambda s, exp, c: (-1 if s else 1) * Fr(c) * Fr(2) ** exp, 'RealFloat.from_int': lambda n: n})
+    bad = None
+    cnt = accepted = 0
+    for a in pf:
+        ma = [v for v in cand if holds(a, v)]
+        for b in pf:
+            it2.self_obj = a
+            it2.fuel = 100000
+            got = it2.call_function(fn, [b], bound_self=True)
+            cnt += 1
+            if got:
+                accepted += 1
+                miss = [v for v in ma if not holds(b, v)]
+                if miss and bad is None:
+                    sh = lambda f: f'{{prec {f.fields["prec"]}, digits from 2**{f.fields["exp"]}, |x| <= {f.fields["pos_bound"]}}}'  # noqa: E731
+                    bad = f'{sh(a)} is reported contained in {sh(b)} although {miss[0]} is a member of the first only'
+    ctx.check(bad is None and accepted > 0, FMT, fn, 'AbstractFormat._is_contained_in',
+              f'a <= b only if every member of a is a member of b, precision and unbounded exponents included ({cnt} pairs, {accepted} accepted)',
+              (bad or 'no pair accepted') + ' (every bounded format counted as contained in MPFloatContext(2): RoundElim dropped `round(t)` under it, 2.0 became 1.75)')
     for name, target in (('__le__', 'self._is_contained_in(other)'), ('__ge__', 'other._is_contained_in(self)'), ('contained_in', 'self._is_contained_in(other)')):
         f = meths.get(name)
         if f is None:
@@ -578,6 +619,40 @@ def t3_refinement_skeleton(ctx: Ctx):
     ok = 'if op in (CompareOp.LT, CompareOp.LE) and c >= 0: return _unconstrained(pos_bound=b)' in t and 'if op in (CompareOp.GT, CompareOp.GE) and c <= 0: return _unconstrained(neg_bound=b)' in t \
         and 'if not is_dyadic(c):' in t
     ctx.check(ok, ANA, mc, '_magnitude_constraint', 'a comparison tightens only the bound it speaks about, only toward zero, only for a dyadic literal', 'changed')
+    # a bound on `e = logb(v)` speaks of what logb *returned*: the exponent rounded under the context it was read in.  It
+    # says something of `v` only where that rounding is an identity -- every path of `_implied_logb` to a non-empty answer
+    # passes the test `round_is_identity(exact_logb(<format of v>), <the context active at the logb>)`, on its true side.
+    from ..cfg import CFG, find_path
+    il = meths.get('_implied_logb')
+    if il is None:
+        raise ShapeError('_implied_logb not found')
+    cfg = CFG(il)
+    answers = [n for n in cfg.returns() if isinstance(n.ast, ast.Return) and not (isinstance(n.ast.value, ast.List) and not n.ast.value.elts)]
+    if not answers:
+        raise ShapeError('_implied_logb: no refinement returned')
+
+    def resolved_names() -> set[str]:
+        return {norm(s.targets[0]) for s in walk_no_nested(il) if isinstance(s, ast.Assign) and isinstance(s.value, ast.Call) and call_name(s.value) == 'self._resolve_active_ctx'
+                and s.value.args and norm(s.value.args[0]).endswith('site.expr')}
+
+    def is_guard(n) -> bool:
+        st_ = n.extra
+        t_ = n.ast if isinstance(st_, ast.If) else None
+        if t_ is None or not (isinstance(t_, ast.UnaryOp) and isinstance(t_.op, ast.Not)):
+            return False
+        k = t_.operand
+        if not (isinstance(k, ast.Call) and call_name(k) == 'round_is_identity' and len(k.args) == 2):
+            return False
+        first_ok = isinstance(k.args[0], ast.Call) and call_name(k.args[0]) == 'exact_logb'
+        second_ok = norm(k.args[1]) in resolved_names() or (isinstance(k.args[1], ast.Call) and call_name(k.args[1]) == 'self._resolve_active_ctx')
+        leaves = all(isinstance(s, ast.Return) and isinstance(s.value, ast.List) and not s.value.elts for s in st_.body) and bool(st_.body)
+        return first_ok and second_ok and leaves
+    guards = [n for n in cfg.nodes_of('test') if is_guard(n)]
+    for a_ in answers:
+        p = find_path(cfg, cfg.entry, a_, avoid=lambda n: n in guards)
+        ctx.check(bool(guards) and p is None, ANA, a_.ast, f'{INST}._implied_logb', 'a bound on logb(v) refines v only past a test that logb\'s own rounding changes nothing',
+                  ('no such test' if not guards else 'a path reaches the answer around it') + ': under MPFloatContext(2), `e = logb(x); if e >= 8: y = x` takes x = 128 + 2**-45 '
+                  '(logb 7, returned as 8) into the arm where x is claimed to have no digit below 2**-44')
 
 
 def t5_partial_fit_specials(ctx: Ctx):
@@ -628,6 +703,20 @@ def t5_partial_fit_specials(ctx: Ctx):
     chooser = [s for s in walk_no_nested(fn) if isinstance(s, ast.If) and any(isinstance(x, ast.Assign) and norm(x.targets[0]) == 'pos_bound' for x in s.body)]
     if len(chooser) != 1:
         raise ShapeError('_bound_if_fits: the statement choosing the finite bounds was not found')
+    # (the statements between the first of `prec` / `exp` and the chooser: what its test reads)
+    top = list(fn.body)
+    at = top.index(chooser[0]) if chooser[0] in top else -1
+    first = next((i for i, s in enumerate(top) if isinstance(s, ast.Assign) and norm(s.targets[0]) in ('prec', 'exp')), -1)
+    if at < 0 or first < 0 or first > at:
+        raise ShapeError('_bound_if_fits: the statements leading to the choice of bounds were not found')
+    lead = top[first:at + 1]
+    OVM = Obj('OverflowMode', WRAP='wrap', SATURATE='saturate', OVERFLOW='overflow', ASSERT='assert')
+
+    def choose(exact, scope, overflow):
+        env = {'exact': exact, 'scope_af': scope, 'resolved': Obj('Context', **({'overflow': overflow} if overflow else {})), 'OV': OVM, 'OverflowMode': OVM,
+               'getattr': lambda o, a, d=None: o.fields.get(a, d)}
+        Interp({}).run_stmts(lead, env)
+        return env
     bad = None
     rows = 0
     for ep, en, ee, pr in product((Fraction(21, 4), Fraction(5)), (Fraction(-21, 4), Fraction(-5)), (-3, -1, 0), (4, 8, 10)):
@@ -635,8 +724,7 @@ def t5_partial_fit_specials(ctx: Ctx):
             continue                         # not a member of a format with that quantum
         exact = Obj('AbstractFormat', prec=pr, exp=ee, pos_bound=ep, neg_bound=en)
         scope = Obj('AbstractFormat', prec=8, exp=-1, pos_bound=Fraction(10), neg_bound=Fraction(-10))
-        env = {'exact': exact, 'scope_af': scope}
-        Interp({}).run_stmts([chooser[0]], env)
+        env = choose(exact, scope, 'saturate')
         rows += 1
         up = Fraction(_math.ceil(ep * 2), 2)           # where round-up puts ep on the grid of halves
         dn = Fraction(_math.floor(en * 2), 2)
@@ -644,6 +732,24 @@ def t5_partial_fit_specials(ctx: Ctx):
             bad = f'exact bounds [{en}, {ep}] with quantum 2**{ee} into a scope with quantum 2**-1: the stated bounds are [{env["neg_bound"]}, {env["pos_bound"]}], the image reaches [{dn}, {up}]'
     ctx.check(bad is None and rows >= 12, ANA, chooser[0], q, f'the finite bounds of a partly fitting rounding hold the rounded image ({rows} rows, bounds on and off the scope\'s grid)',
               (bad or 'table shrank') + ' (x + y with x, y in [-0.375, 0.375] under an integer scope: inferred {0, -0}, 0.375 + 0.375 rounds to 1)')
+    # ... under a scope that wraps on overflow a value past one end comes back from the other: once the exact range leaves
+    # the scope's, on either side, the image may lie anywhere in the scope.  (A scope that saturates, raises or overflows to
+    # an infinity clips, and the intersection is its image.)
+    bad = None
+    rows = 0
+    for mode in ('wrap', 'saturate', 'overflow', None):
+        for ep, en in product((Fraction(5), Fraction(10), Fraction(20)), (Fraction(0), Fraction(-10), Fraction(-20))):
+            exact = Obj('AbstractFormat', prec=6, exp=0, pos_bound=ep, neg_bound=en)
+            scope = Obj('AbstractFormat', prec=8, exp=0, pos_bound=Fraction(10), neg_bound=Fraction(-10))
+            env = choose(exact, scope, mode)
+            rows += 1
+            leaves = ep > 10 or en < -10
+            want = (Fraction(-10), Fraction(10)) if (mode == 'wrap' and leaves) else (max(en, Fraction(-10)), min(ep, Fraction(10)))
+            if (env['neg_bound'] > want[0] or env['pos_bound'] < want[1]) and bad is None:
+                bad = (f'exact range [{en}, {ep}] into a scope [-10, 10] that {"wraps" if mode == "wrap" else "clips (" + str(mode) + ")"}: '
+                       f'the stated bounds are [{env["neg_bound"]}, {env["pos_bound"]}], the image reaches [{want[0]}, {want[1]}]')
+    ctx.check(bad is None and rows >= 36, ANA, chooser[0], q, f'the finite bounds of a partly fitting rounding cover what a wrapping scope brings back from its other end ({rows} rows)',
+              (bad or 'table shrank') + ' (x in UINT8, `with SINT8: y = x + 45`: inferred [0, 127], x = 100 gives -111)')
 
 
 def t6_captured_values(ctx: Ctx):
@@ -906,12 +1012,21 @@ RULES = [
 from ..selftest import Mutant  # noqa: E402
 
 MUTANTS = [
+    Mutant('wrapping-scope-clipped-like-a-saturating-one', ANA, "        if exact.prec > scope_af.prec or exact.exp < scope_af.exp or wraps:", "        if exact.prec > scope_af.prec or exact.exp < scope_af.exp:", 'C14.T5',
+           'finding F112 before its repair: x in UINT8, with SINT8: y = x + 45 inferred [0, 127]'),
+    Mutant('containment-skips-precision-for-unbounded-exponents', FMT, "        if not isinstance(other.prec, float):\n", "        if not isinstance(other.prec, float) and not isinstance(other.exp, float):\n", 'C14.T2',
+           'finding F113 before its repair: every bounded format is contained in MPFloatContext(2); RoundElim drops a rounding that changes values'),
+    Mutant('logb-bound-read-as-exact', ANA, "        if not round_is_identity(exact_logb(fmt), resolved):\n            return []\n", "", 'C14.T3',
+           'finding F114 before its repair'),
+    Mutant('logb-bound-tested-against-the-wrong-context', ANA, "        resolved = self._resolve_active_ctx(d.site.expr)\n        if not round_is_identity(exact_logb(fmt), resolved):", "        resolved = REAL\n        if not round_is_identity(exact_logb(fmt), resolved):", 'C14.T3'),
+    Mutant('wrap-noticed-past-the-upper-end-only', ANA, "            exact.pos_bound > scope_af.pos_bound\n            or exact.neg_bound < scope_af.neg_bound\n", "            exact.pos_bound > scope_af.pos_bound\n", 'C14.T5',
+           'x in SINT8, with UINT8: y = x - 45 comes back from the top'),
     Mutant('merge-points-unified-for-plain-lists-only', 'fpy2/analysis/alias.py', "            if not _carries_list(self.types.by_def.get(d)):\n                continue\n            for i in same_object_defs(d):",
            "            if not isinstance(self.types.by_def.get(d), ListType):\n                continue\n            for i in same_object_defs(d):", 'C14.G2',
            'seeded change C14e: t = (xs, 0); if c: t = (ys, 1); a, k = t; a[0] = x -- xs[0] keeps the literal set'),
     Mutant('zero-bound-times-unbounded-is-nan', FMT, "            return b if b == 0 else a if a == 0 else a * b\n", "            return a * b\n", 'C14.T1',
            'finding F77 before its repair: {-2} * integers has NaN bounds and is "contained" in every bounded scope'),
-    Mutant('partial-fit-bounds-off-the-grid', ANA, "        if exact.prec > scope_af.prec or exact.exp < scope_af.exp:", "        if exact.prec > scope_af.prec:", 'C14.T5',
+    Mutant('partial-fit-bounds-off-the-grid', ANA, "        if exact.prec > scope_af.prec or exact.exp < scope_af.exp or wraps:", "        if exact.prec > scope_af.prec or wraps:", 'C14.T5',
            'finding F76 before its repair: 0.375 + 0.375 under an integer scope'),
     Mutant('difference-fitted-without-the-zero-rule', ANA, "                fitted = self._zero_sum_bound(\n                    e, exact_binop(lhs, rhs, operator.sub,", "                fitted = self._bound_if_fits(\n                    e, exact_binop(lhs, rhs, operator.sub,", 'C14.T9',
            'finding F71 before its repair: x - x under an RTN scope is inferred without -0'),
